@@ -16,11 +16,23 @@ ordered_logit / ordered_probit -- through a database (utilities log(Variable), a
 chosen alternative as columns) and through plain Numeric expressions -- and compares values
 (1e-12 exact cases, 1e-9 term cases), unit interval, sum, zero when unavailable, invariance under
 a constant added to all utilities, log* = ln(*), and availability None on the all-available cases.
+
+Two things the specification declares NOT to be part of a model are replayed as well:
+* the names of the nest objects (NamesIrrelevant over the constant Namings: all nests unnamed, all with the
+  same name, the first one named like the default name of the second, distinct names): every function
+  written with nest objects is evaluated under every naming, same expected values;
+* earlier constructions (Memoryless; action Rebuild, Steps = 2): the utility dictionary, then the availability
+  dictionary, are modified IN PLACE and the model is built again from the same dictionaries and the same
+  nests object; expected: the specification's value of the arguments as they are now.  Inside every structure
+  the emitted cases are chained that way (the arguments after the modification are those of another emitted
+  case); the two-step behaviours that TLC enumerates itself (one entry / all entries of one dictionary
+  replaced) are replayed one by one.
 """
 
 from __future__ import annotations
 
 import copy
+import functools
 import sys
 
 sys.path.insert(0, '/verif')
@@ -52,13 +64,19 @@ def body(chk: check.Check):
     numeric_every = 30 if chk.tier == 'quick' else 60
     for name, recs in emitted.items():
         for r in recs:
-            chk.distinct.add((r['kind'], cm.struct_key(r), repr(r.get('a')), repr(r.get('av')), repr(r.get('x')), repr(r.get('ts'))))
+            chk.distinct.add((r['kind'], cm.struct_key(r), repr(r.get('a')), repr(r.get('av')), repr(r.get('x')), repr(r.get('ts')),
+                              repr(r.get('first'))))
         if name == 'ordered':
             results = par.pmap(cm.ord_case, recs, chunk=max(8, len(recs) // 48))
             stats[name] = cm.report(chk, name, recs, results, samples)
             continue
+        if name == 'session':   # the two-step behaviours (the one-step cases of this run give the value after the first construction)
+            items = cm.session_items(recs)
+            results = par.pmap(cm.session_group, items, chunk=1, timeout=900)
+            stats[name] = cm.report(chk, name, items, results, samples)
+            continue
         items = cm.groups(recs)
-        results = par.pmap(cm.c05_group, items, chunk=max(4, len(items) // 64), timeout=900)
+        results = par.pmap(functools.partial(cm.c05_group, plan=chk.tier), items, chunk=max(4, len(items) // 64), timeout=900)
         stats[name] = cm.report(chk, name, items, results, samples)
         # the same cases written with plain numbers (no database), a regular sample of them
         picked = recs[chk.seed % numeric_every::numeric_every]
@@ -111,6 +129,40 @@ def body(chk: check.Check):
                 st == 'ok' and 'logit:logit:zero-when-unavailable' in val['counts'] and 'logit:logit:value' in val['counts']
                 and 'logit:loglogit:log-of-probability' in val['counts'])
 
+    # (5) the names of the nest objects: a specification in which a nest takes the parameter of the nest it shares its name with ...
+    two = dict(small, consts=dict(small['consts'], CnlMuPairs=[('2', '3/2')], TopMus=('1',)))
+    res = cm.run_mutant(two, 'names-matter', ['NamesIrrelevant'])
+    chk.control('ChoiceModels with Mutation = names-matter (nests keyed by name): TLC must report NamesIrrelevant',
+                res.violated == 'NamesIrrelevant', f'violated={res.violated}')
+    # ... and a library that does the same (nested logit terms computed from nests keyed by their name)
+    two_nests = next(g for g in cm.groups(emitted['nl']) if len(g[0]['labels']) == 4 and len(cm.nl_members(g[0])) == 2
+                     and len(cm.nl_members(g[0])[0][1]) == 2 and g[0]['mus'] == [[2, 1], [3, 2]] and g[0]['mu'] == [1, 1])
+    st, val = rt.forked(cm.c05_group_patched, two_nests, 'names', plan=chk.tier)
+    chk.control('nested logit terms computed from nests keyed by name: value-under-naming clause (same names, default name = given name)',
+                st == 'ok' and 'nl:nested:value-under-naming' in val['counts'] and 'nl:lognested:value-under-naming' in val['counts']
+                and not any(k.endswith(':value') or k.endswith('after-modification') for k in val['counts']),
+                f'clauses={sorted(val["counts"]) if st == "ok" else val}')
+    # (6) a second construction: a specification that keeps the nest sums of the first construction ...
+    sess = next(r for r in cm.runs('quick') if r['name'] == 'session')
+    sess = dict(sess, kinds=['cnl'], consts=dict(sess['consts'], AlphaRows=[('1', '0'), ('1/2', '1/2')]))
+    res = cm.run_mutant(sess, 'remembers', ['Memoryless'])
+    chk.control('ChoiceModels with Mutation = remembers (Steps = 2, nest sums of the first construction kept): TLC must report Memoryless',
+                res.violated == 'Memoryless', f'violated={res.violated}')
+    # ... and a library that does the same (cross-nested terms from what these dictionary objects held the first time)
+    split = next(g for g in cm.groups(emitted['cnl']) if len(g[0]['labels']) == 3 and g[0]['red'] == 'none' and g[0]['mu'] == [1, 1]
+                 and g[0]['mus'] == [[3, 2], [2, 1]])
+    st, val = rt.forked(cm.c05_group_patched, split, 'remembers', plan=chk.tier)
+    chk.control('cross-nested logit that remembers the first content of the dictionaries: value-after-modification clause, plain values unaffected',
+                st == 'ok' and all(f'cnl:{f}:value-after-modification' in val['counts'] for f in ('cnl', 'logcnl', 'cnlmu'))
+                and not any(k.endswith(':value') or k.endswith('under-naming') for k in val['counts']),
+                f'clauses={sorted(val["counts"]) if st == "ok" else val}')
+    item = next(i for i in cm.session_items(emitted['session']) if i['steps'][0]['kind'] == 'cnl')
+    st, val = rt.forked(cm.session_group_patched, item, 'remembers')
+    chk.control('the same library on the two-step behaviours of TLC: second-construction clause only',
+                st == 'ok' and 'cnl:cnl:two-step:second-construction' in val['counts']
+                and not any(k.endswith('first-construction') for k in val['counts']),
+                f'clauses={sorted(val["counts"]) if st == "ok" else val}')
+
     chk.uncovered += [
         'utilities other than ln of an integer 1..4 (and 3x, 4x those): the closed forms need e^V exact; utilities depending on free '
         'parameters of an estimation are not part of this check',
@@ -120,6 +172,11 @@ def body(chk: check.Check):
         'check_validity are exercised on valid structures only',
         'mev_endogenous_sampling / logmev_endogenous_sampling (correction terms) and the deprecated aliases (cnl_avail, logcnl_avail, getMev...)',
         'the pure-Python LogLogit.get_value (returns +inf for an unavailable chosen alternative); the property is observed through get_value_c',
+        'names of nests other than the four namings of the constant Namings; nest objects shared between two different nests containers',
+        'histories longer than three constructions on the same objects, dictionaries modified between construction and evaluation (a built '
+        'expression keeps the expressions it was built from), a utility dictionary whose SET of alternatives changes',
+        'quick tier: every function written with nest objects is evaluated under every naming, but each naming at one step of the history only '
+        '(a mismatch is classified afterwards by evaluating the same arguments from new objects); the Numeric mode and availability None use one naming',
         'in the irrational cases TLC decides the structure of the expected value (which alternative enters which sum with which exponent); '
         'its number is computed by the driver (libm pow / erfc), and the identities sum = 1 / MEV theorem / reduction are then checked '
         'numerically on the emitted terms (1e-12)',
@@ -129,6 +186,9 @@ def body(chk: check.Check):
         'a probability may exceed 1 by floating-point noise: the unit-interval clause allows 1 + 1e-12; unavailable alternatives must give exactly 0.0 '
         '(and -inf for the log functions)',
         'every case is evaluated with every alternative as the chosen one, including unavailable ones (that is how "zero when unavailable" is observed)',
+        'a model is a function of the arguments at the moment of the construction: after a dictionary has been modified in place, only the NEXT '
+        'construction is required to follow it (nothing is required of expressions built earlier)',
+        'a naming may be refused by the library with BiogemeError (nests.py documents names as free labels; none is refused today: see refused in the evidence)',
         'ordered models: thresholds are passed as the library expects them (first threshold + non-negative differences, set through the betas argument)',
     ]
 
